@@ -584,15 +584,23 @@ class Gen:
             x = m(C, "from_", tb)
             if self.p(0.5):
                 x = join(x)
-            x = m(x, "select", *[self.sel_item_plain(scope) for _ in range(self.rng.randint(1, 3))])
+            sels = [self.sel_item_plain(scope) for _ in range(self.rng.randint(1, 3))]
+            # the common pattern "group / order by a selected, aliased term": the SAME term spec (same alias)
+            # appears in the select list and in GROUP BY / ORDER BY
+            shared = None
+            if self.p(0.45):
+                base = self.g_expr(1, scope) if self.p(0.5) else self.g_field(scope, alias_ok=False)
+                shared = {"t": "meth", "x": base, "m": "as_", "a": [self.ch(ALIASES)]}
+                sels.insert(self.rng.randrange(len(sels) + 1), shared)
+            x = m(x, "select", *sels)
             if self.p(0.6):
                 x = m(x, "where", self.g_crit(d, scope))
-            if self.p(0.3):
-                x = m(x, "groupby", self.g_field(scope, alias_ok=False))
+            if self.p(0.3) or (shared is not None and self.p(0.6)):
+                x = m(x, "groupby", shared if (shared is not None and self.p(0.8)) else self.g_field(scope, alias_ok=False))
                 if self.p(0.5):
                     x = m(x, "having", self.g_crit(1, scope))
             if self.p(0.4):
-                x = m(x, "orderby", self.g_field(scope, alias_ok=False))
+                x = m(x, "orderby", shared if (shared is not None and self.p(0.5)) else self.g_field(scope, alias_ok=False))
             if self.p(0.3):
                 x = m(x, "limit", self.ch([1, 10]))
             if self.p(0.2):
